@@ -1488,7 +1488,8 @@ end Fcgi.Headline
   operation and per output record: `wcost |data|` (Clauses 1–3, 6, 8), the number of `fill_buf`/`consume`
   rounds `2·n` (Clauses 10–12; Clause 10 also needs `|content| ≤ n`), the number of writes, flushes and
   output records `wcostAll W` / `fcost W` (Clauses 13–16).  Clauses 15–16 also need `hfl` (no error among
-  the flush answers) and `hmore` (later scripts propagate errors; forced by the proof).
+  the flush answers); Clause 15 also needs `hmore` (later scripts propagate errors; forced by the proof — in the chain
+  theorem of Clause 16 it holds by construction).
 
 **The conjuncts of `C07_headline`.**
 1. `C07E.single_request_e2e_unbounded` — Responder, canonical handler, any benign transport, ANY wire
